@@ -7,15 +7,22 @@ EXTENDS Transport, TLC
 VARIABLE cell
 \* validity periods: long valid, not yet valid (by a day / by two minutes), expired (a day / a minute ago), about to end
 Periods == { <<-3600, 43200>>, <<86400, 172800>>, <<120, 43200>>, <<-172800, -86400>>, <<-3600, -60>>, <<-120, 120>> }
-Cells == { [side |-> sd, proto |-> pr, srvCert |-> sc, srvName |-> sn, cliCert |-> cc, cliCA |-> ca, peerMax |-> pm,
-            plain |-> pl, cfg |-> cf, nb |-> pd[1], na |-> pd[2]] :
-           sd \in {"exporter", "collector"}, pr \in {"tls", "dtls"}, sc \in SrvCerts, sn \in SrvNames, cc \in CliCerts,
-           ca \in BOOLEAN, pm \in {11, 12, 13}, pl \in BOOLEAN, cf \in {"ok", "badCA", "badKey"}, pd \in Periods }
+\* every value of every dimension that the side in question looks at; the other side's dimensions at a default
+ExpCells == { [side |-> "exporter", proto |-> pr, srvCert |-> sc, srvName |-> sn, cliCert |-> cc, cliCA |-> FALSE, peerMax |-> pm,
+               plain |-> pl, cfg |-> cf, nb |-> pd[1], na |-> pd[2], addr |-> ad, srvChain |-> "A"] :
+              pr \in {"tls", "dtls"}, sc \in SrvCerts, sn \in SrvNames, cc \in {"none", "trusted"},
+              pm \in {11, 12, 13}, pl \in BOOLEAN, cf \in {"ok", "badCA", "badKey"}, pd \in Periods, ad \in {"ip", "host"} }
+ColCells == { [side |-> "collector", proto |-> pr, srvCert |-> "trusted", srvName |-> "match", cliCert |-> cc, cliCA |-> ca, peerMax |-> pm,
+               plain |-> pl, cfg |-> "ok", nb |-> -3600, na |-> 43200, addr |-> "ip", srvChain |-> ch] :
+              pr \in {"tls", "dtls"}, cc \in CliCerts, ca \in BOOLEAN, pm \in {11, 12, 13}, pl \in BOOLEAN, ch \in {"A", "Bbundle"} }
+Cells == ExpCells \cup ColCells
 Init == cell \in Cells /\ sess = << >>
 Next == UNCHANGED << cell, sess >>
 EstablishedImpliesVerified ==
   (cell.side = "exporter" /\ cell.proto = "tls" /\ ExporterEstablishes(cell) = "yes") =>
-     (Chains(cell.srvCert) /\ cell.nb <= 0 /\ cell.na >= 0 /\ cell.srvCert = "trusted" /\ cell.srvName # "mismatch" /\ cell.peerMax >= 12 /\ ~cell.plain)
+     (Chains(cell.srvCert) /\ cell.nb <= 0 /\ cell.na >= 0 /\ cell.srvCert \in {"trusted", "hostSAN"} /\ cell.srvName # "mismatch" /\ cell.peerMax >= 12 /\ ~cell.plain
+      /\ (cell.srvCert = "hostSAN" => (cell.srvName = "unset" /\ cell.addr = "host"))
+      /\ (cell.srvCert = "trusted" /\ cell.srvName = "unset" => cell.addr = "ip"))
 DeliveryImpliesClientAuth ==
   (cell.side = "collector" /\ cell.proto = "tls" /\ cell.cliCA /\ CollectorDelivers(cell) = "yes") => cell.cliCert = "trusted"
 NoPlaintext == /\ cell.plain => (ExporterEstablishes(cell) = "no" /\ CollectorDelivers(cell) = "no")
